@@ -15,6 +15,8 @@ from harness.world.realindex import RealIndex
 ALL_SCRIPTS = NORMAL_SCRIPTS + UNSPENDABLE_SCRIPTS
 _collision_pool = {}
 
+HONOURS_DEADLINE = True      # main loops stop generating when common.out_of_time()
+
 
 def collision_groups(seed, tier):
     key = (seed, tier)
